@@ -122,7 +122,12 @@ func (r *renderer) Text(txt []byte, inURL, isSet bool) error {
 
 	if inURL {
 		if isSet && bytes.ContainsRune(txt, ',') {
-			r.query = false
+			// A comma ends a URL of the set: only the text after the last
+			// comma is part of the URL that follows.
+			i := bytes.LastIndexByte(txt, ',')
+			r.query = bytes.ContainsAny(txt[i+1:], "?#")
+			r.removeQuestionMark = false
+			r.addAmpersand = false
 		} else if r.query {
 			if r.removeQuestionMark && txt[0] == '?' {
 				txt = txt[1:]
